@@ -956,10 +956,29 @@ func (m *machine) boundsCheck(idx sc, idxT types.Type, n int, what string) {
 		return
 	}
 	tb := m.tb
-	inb := tb.cmp(opUlt, idx.t, tb.constBV(uint64(n), w))
+	it := idx.t
+	if w < 64 {
+		if signed {
+			it = tb.sext(it, 64)
+		} else {
+			it = tb.zext(it, 64)
+		}
+	}
+	inb := tb.cmp(opUlt, it, tb.constBV(uint64(n), 64))
 	if !m.branch(inb, "bounds:"+what) {
 		m.goPanic(fmt.Sprintf("runtime error: index out of range [symbolic] with length %d", n))
 	}
+}
+
+func (m *machine) idx64(idx sc, t types.Type) *term {
+	w, signed := widthOf(t)
+	if w == 64 {
+		return idx.t
+	}
+	if signed {
+		return m.tb.sext(idx.t, 64)
+	}
+	return m.tb.zext(idx.t, 64)
 }
 
 func (m *machine) indexAddr(x, idxv value, instr *ssa.IndexAddr) value {
@@ -996,7 +1015,7 @@ func (m *machine) indexAddr(x, idxv value, instr *ssa.IndexAddr) value {
 		i := off + int(idx.c)
 		return ptr{slot: &arr.elems[i], own: &arr.obj, arr: arr, idx: i}
 	}
-	return ptr{own: &arr.obj, arr: arr, sidx: idx.t, lo: off, hi: off + n}
+	return ptr{own: &arr.obj, arr: arr, sidx: m.idx64(idx, instr.Index.Type()), lo: off, hi: off + n}
 }
 
 func (m *machine) punIndexAddr(p ptr, idx sc) value {
@@ -1011,21 +1030,21 @@ func (m *machine) index(x, idxv value, instr *ssa.Index) value {
 		if idx.t == nil {
 			return m.copyVal(xv.elems[idx.c])
 		}
-		return m.loadSym(ptr{arr: xv, sidx: idx.t, lo: 0, hi: len(xv.elems)}, instr.Type())
+		return m.loadSym(ptr{arr: xv, sidx: m.idx64(idx, instr.Index.Type()), lo: 0, hi: len(xv.elems)}, instr.Type())
 	case string:
 		m.boundsCheck(idx, instr.Index.Type(), len(xv), "strindex")
 		if idx.t == nil {
 			return smallInts[xv[idx.c]]
 		}
 		a := &arrobj{elems: strBytes(xv)}
-		return m.loadSym(ptr{arr: a, sidx: idx.t, lo: 0, hi: len(xv)}, instr.Type())
+		return m.loadSym(ptr{arr: a, sidx: m.idx64(idx, instr.Index.Type()), lo: 0, hi: len(xv)}, instr.Type())
 	case *symstr:
 		m.boundsCheck(idx, instr.Index.Type(), len(xv.b), "strindex")
 		if idx.t == nil {
 			return xv.b[idx.c]
 		}
 		a := &arrobj{elems: xv.b}
-		return m.loadSym(ptr{arr: a, sidx: idx.t, lo: 0, hi: len(xv.b)}, instr.Type())
+		return m.loadSym(ptr{arr: a, sidx: m.idx64(idx, instr.Index.Type()), lo: 0, hi: len(xv.b)}, instr.Type())
 	}
 	panic(engineError{fmt.Sprintf("Index on %T", x)})
 }
